@@ -83,6 +83,7 @@ type Contract struct {
 	Modifies []SExpr
 	Lets     []LetDef
 	Loops    map[int]*LoopSpec
+	Snapshots map[int][]string // ghost snapshots of the whole state taken after the statement containing call N
 	Asserts  map[int][]Clause // by static call ordinal: proved, then assumed, after the statement containing the call
 	Pure     bool
 	Trusted  bool // contract assumed, body not verified (listed in evidence)
@@ -294,8 +295,15 @@ func ParseContractFile(path, pkgPath string) (*ContractFile, error) {
 			ns, r2 := splitWord(r1)
 			w3, r3 := splitWord(r2)
 			n, err := strconv.Atoi(ns)
+			if w1 == "call" && w3 == "snapshot" && err == nil {
+				if cur.Snapshots == nil {
+					cur.Snapshots = map[int][]string{}
+				}
+				cur.Snapshots[n] = append(cur.Snapshots[n], strings.TrimSpace(r3))
+				continue
+			}
 			if w1 != "call" || w3 != "assert" || err != nil {
-				return nil, fail(fmt.Errorf("expected: at call N assert <expr>"))
+				return nil, fail(fmt.Errorf("expected: at call N assert <expr> | at call N snapshot NAME"))
 			}
 			e, err := ParseSpecExpr(r3)
 			if err != nil {
